@@ -111,4 +111,75 @@ def cnt (i : Nat) (l : List (Option Nat)) : Nat := l.count (some i)
 def window (start len : Nat) (bs : List Backend) : List (Option Nat) :=
   (picks (start + len) bs).drop start
 
+/-! ### slow start (`checkSlowStart`, `initSlowStart`, `updateSlowStart`, `SetSlowStart`, `SetRestart`)
+
+    func (brr *BalanceRR) checkSlowStart() {            // first thing Balance does (not for WrrSticky)
+        if brr.slowStartTime > 0 {
+            for _, backendRR := range brr.backends {
+                if backend.GetRestart() { backend.SetRestart(false); backendRR.initSlowStart(brr.slowStartTime) }
+                backendRR.updateSlowStart() } } }
+    initSlowStart(T):  weightSS.slowStartTime = T
+                       if T == 0 { inSlowStart = false } else { startTime = now; inSlowStart = true; weight = 1; current = 1 }
+    updateSlowStart(): if inSlowStart {
+                         cur := Duration(final) * time.Since(startTime)
+                         if weightSS.slowStartTime != 0 { cur /= Duration(slowStartTime) * time.Second; weight = int(cur) }
+                         else { weight = final }
+                         if weight >= final { weight = final; inSlowStart = false } }
+    Init: weightSS.final = weight (= conf*100).   UpdateWeight does NOT touch weightSS.final.
+
+    The clock is an explicit parameter: `el` = time.Since(startTime) in nanoseconds, chosen per call
+    (the harness moves `startTime` into the past through the verif hook; the code itself calls time.Now()). -/
+
+structure SS where
+  b : Backend
+  final : Int          -- weightSS.final
+  inSS : Bool          -- inSlowStart
+  ssTime : Int         -- weightSS.slowStartTime (seconds)
+  restarted : Bool     -- backend.restarted (set by the health checker / by Update for new members)
+deriving Repr, DecidableEq, Inhabited
+
+def nsPerSec : Int := 1000000000
+
+def initSlowStart (T : Int) (s : SS) : SS :=
+  if T = 0 then { s with ssTime := T, inSS := false }
+  else { s with ssTime := T, inSS := true, b := { s.b with weight := 1, current := 1 } }
+
+/-- `el` = time.Since(startTime) in ns; Go integer division truncates towards zero -/
+def updateSlowStart (el : Int) (s : SS) : SS :=
+  if s.inSS then
+    let w := if s.ssTime ≠ 0 then (s.final * el).tdiv (s.ssTime * nsPerSec) else s.final
+    if w ≥ s.final then { s with b := { s.b with weight := s.final }, inSS := false }
+    else { s with b := { s.b with weight := w } }
+  else s
+
+/-- loop body of checkSlowStart; a backend whose slow start begins in this very call observes `el0`
+    (a few microseconds), every other one `el` -/
+def checkOne (T el0 el : Int) (s : SS) : SS :=
+  if s.restarted then updateSlowStart el0 (initSlowStart T { s with restarted := false })
+  else updateSlowStart el s
+
+def checkSlowStart (T el0 el : Int) (l : List SS) : List SS :=
+  if T > 0 then l.map (checkOne T el0 el) else l
+
+def ssBackends (l : List SS) : List Backend := l.map (·.b)
+
+/-- write the balancer's new weight/current back -/
+def ssPut (l : List SS) (bs : List Backend) : List SS :=
+  List.zipWith (fun s b => { s with b := b }) l bs
+
+/-- one `Balance(WrrSmooth)` call with slow-start time `T` (brr.slowStartTime): result and new state -/
+def balanceSS (T el0 el : Int) (l : List SS) : Option Nat × List SS :=
+  let l1 := checkSlowStart T el0 el l
+  (stepPick (ssBackends l1), ssPut l1 (stepState (ssBackends l1)))
+
+def initSS (scale : Int) (w : Int) : SS := ⟨initBackend scale w, w * scale, false, 0, false⟩
+
+/-- histories of `Balance` calls with slow start: per call `(T, el0, el)` -/
+def runSS : List (Int × Int × Int) → List SS → List (Option Nat) × List SS
+  | [], l => ([], l)
+  | (T, el0, el) :: rest, l =>
+    let r := balanceSS T el0 el l
+    let q := runSS rest r.2
+    (r.1 :: q.1, q.2)
+
 end BfeVerif.C01
